@@ -19,13 +19,14 @@ def touchedIds (k : Kind) (tag : String) (nm : Named) : List Key :=
   | .send => tgt
   | .none => []
 
-/-- a child the message names: right tag, non-blank ID, ID among the touched IDs -/
-def isTouched (tag : String) (ids : List Key) (c : Xml) : Bool :=
-  c.tag == tag && (keyOf tag c).isSome && ids.contains (keyOf tag c)
+/-- a child the message names: right tag and either a non-blank ID among the touched IDs, or
+    deep-equal to an element the message carries (a carried element may lack an ID) -/
+def isTouched (tag : String) (ids : List Key) (carried : List Xml) (c : Xml) : Bool :=
+  c.tag == tag && (((keyOf tag c).isSome && ids.contains (keyOf tag c)) || carried.contains c)
 
 /-- everything not named is identical and in the same relative order -/
-def frame (tag : String) (ids : List Key) (before after : List Xml) : Bool :=
-  before.filter (fun c => !isTouched tag ids c) == after.filter (fun c => !isTouched tag ids c)
+def frame (tag : String) (ids : List Key) (carried before after : List Xml) : Bool :=
+  before.filter (fun c => !isTouched tag ids carried c) == after.filter (fun c => !isTouched tag ids carried c)
 
 /-- index of the running order's `roCreate` among the root's children -/
 def rcIndex (d : Xml) : Option Nat := d.kids.findIdx? (fun c => c.tag == "roCreate")
@@ -73,7 +74,7 @@ def holdsC03 (i : MergeInput) (o : Res) : Bool :=
       | some rc' =>
         o.ro == setRcKids i.d rc'.kids &&
         if i.k.isStoryLevel then
-          frame "story" (touchedIds i.k "story" nm) rc.kids rc'.kids
+          frame "story" (touchedIds i.k "story" nm) nm.carried rc.kids rc'.kids
         else
           match addressed rc.kids nm.story with
           | none => rc'.kids == rc.kids
@@ -81,7 +82,7 @@ def holdsC03 (i : MergeInput) (o : Res) : Bool :=
             match rc.kids[j]?, rc'.kids[j]? with
             | some s, some s' =>
               rc'.kids == rc.kids.set j (s.withKids s'.kids) &&
-              frame "item" (touchedIds i.k "item" nm) s.kids s'.kids
+              frame "item" (touchedIds i.k "item" nm) nm.carried s.kids s'.kids
             | _, _ => false
   | _, _ => false
 
